@@ -13,20 +13,20 @@ Proof.
 Qed.
 
 (* the verdict computed for both stack alignments covers every 8-byte aligned rsp0 *)
-Theorem both_alignments W regs xmm mem zf ext cond sp prog :
+Theorem both_alignments W regs xmm up mem zf ext cond sp prog :
   check_both ext cond sp prog = true ->
   regs RSP mod 8 = 0 ->
   (forall e, ext = Some e -> regs RSP + 8 <= den W regs xmm mem e) ->
   (forall v k b, cond = Some (v, k, b) -> (den W regs xmm mem v =? k) = b) ->
-  stub_guarantee W regs xmm mem zf ext sp prog.
+  stub_guarantee W regs xmm up mem zf ext sp prog.
 Proof.
   intros H Hal He Hc. unfold check_both in H. apply andb_true_iff in H as [H0 H8].
   destruct (mod16_cases _ Hal) as [E|E].
-  - apply (stub_sound W {| p_a0 := 0; p_ext := ext; p_cond := cond |} regs xmm mem); cbn; auto.
-  - apply (stub_sound W {| p_a0 := 8; p_ext := ext; p_cond := cond |} regs xmm mem); cbn; auto.
+  - apply (stub_sound W {| p_a0 := 0; p_ext := ext; p_cond := cond |} regs xmm up mem); cbn; auto.
+  - apply (stub_sound W {| p_a0 := 8; p_ext := ext; p_cond := cond |} regs xmm up mem); cbn; auto.
 Qed.
 
-Ltac by_check := apply (both_alignments _ _ _ _ _ _ None); [vm_compute; reflexivity | assumption | try (intros ? [=]) | try (intros ? ? ? [=])].
+Ltac by_check := apply (both_alignments _ _ _ _ _ _ _ None); [vm_compute; reflexivity | assumption | try (intros ? [=]) | try (intros ? ? ? [=])].
 
 Lemma hook_wrappers_ok :
   map fst hook_wrappers = ["mcount_entry"; "mcount_exit"; "plthook_entry"; "plthook_exit"; "xray_entry"; "xray_exit"]%string /\
@@ -34,57 +34,57 @@ Lemma hook_wrappers_ok :
 Proof. vm_compute. split; reflexivity. Qed.
 
 (* ---- entry stubs ---- *)
-Theorem fentry_ok W regs xmm mem zf : regs RSP mod 8 = 0 ->
-  stub_guarantee W regs xmm mem zf None spec_fentry stub___fentry__.
+Theorem fentry_ok W regs xmm up mem zf : regs RSP mod 8 = 0 ->
+  stub_guarantee W regs xmm up mem zf None spec_fentry stub___fentry__.
 Proof. intro. by_check. Qed.
 
-Theorem dentry_ok W regs xmm mem zf : regs RSP mod 8 = 0 ->
-  stub_guarantee W regs xmm mem zf None spec_dentry stub___dentry__.
+Theorem dentry_ok W regs xmm up mem zf : regs RSP mod 8 = 0 ->
+  stub_guarantee W regs xmm up mem zf None spec_dentry stub___dentry__.
 Proof. intro. by_check. Qed.
 
-Theorem xray_entry_ok W regs xmm mem zf : regs RSP mod 8 = 0 ->
-  stub_guarantee W regs xmm mem zf None spec_xray_entry stub___xray_entry.
+Theorem xray_entry_ok W regs xmm up mem zf : regs RSP mod 8 = 0 ->
+  stub_guarantee W regs xmm up mem zf None spec_xray_entry stub___xray_entry.
 Proof. intro. by_check. Qed.
 
 (* -pg: the parent's return-address slot is 8(%rbp), which lies above the stub's own return
    address (the caller pushed %rbp after being called) *)
-Theorem mcount_ok W regs xmm mem zf : regs RSP mod 8 = 0 -> regs RSP <= regs RBP ->
-  stub_guarantee W regs xmm mem zf ext_mcount spec_mcount stub_mcount.
+Theorem mcount_ok W regs xmm up mem zf : regs RSP mod 8 = 0 -> regs RSP <= regs RBP ->
+  stub_guarantee W regs xmm up mem zf ext_mcount spec_mcount stub_mcount.
 Proof.
-  intros ? Hbp. apply (both_alignments _ _ _ _ _ _ None); [vm_compute; reflexivity | assumption | | intros ? ? ? [=]].
+  intros ? Hbp. apply (both_alignments _ _ _ _ _ _ _ None); [vm_compute; reflexivity | assumption | | intros ? ? ? [=]].
   intros e [= <-]. cbn. lia.
 Qed.
 
 (* ---- return stubs ---- *)
-Theorem mcount_return_ok W regs xmm mem zf : regs RSP mod 8 = 0 ->
-  stub_guarantee W regs xmm mem zf None spec_return stub_mcount_return.
+Theorem mcount_return_ok W regs xmm up mem zf : regs RSP mod 8 = 0 ->
+  stub_guarantee W regs xmm up mem zf None spec_return stub_mcount_return.
 Proof. intro. by_check. Qed.
 
-Theorem dynamic_return_ok W regs xmm mem zf : regs RSP mod 8 = 0 ->
-  stub_guarantee W regs xmm mem zf None spec_return stub_dynamic_return.
+Theorem dynamic_return_ok W regs xmm up mem zf : regs RSP mod 8 = 0 ->
+  stub_guarantee W regs xmm up mem zf None spec_return stub_dynamic_return.
 Proof. intro. by_check. Qed.
 
-Theorem plthook_return_ok W regs xmm mem zf : regs RSP mod 8 = 0 ->
-  stub_guarantee W regs xmm mem zf None spec_plthook_return stub_plthook_return.
+Theorem plthook_return_ok W regs xmm up mem zf : regs RSP mod 8 = 0 ->
+  stub_guarantee W regs xmm up mem zf None spec_plthook_return stub_plthook_return.
 Proof. intro. by_check. Qed.
 
-Theorem xray_exit_ok W regs xmm mem zf : regs RSP mod 8 = 0 ->
-  stub_guarantee W regs xmm mem zf None spec_xray_exit stub___xray_exit.
+Theorem xray_exit_ok W regs xmm up mem zf : regs RSP mod 8 = 0 ->
+  stub_guarantee W regs xmm up mem zf None spec_xray_exit stub___xray_exit.
 Proof. intro. by_check. Qed.
 
 (* ---- PLT hook: both outcomes of plthook_entry ---- *)
-Theorem plt_hooker_resolve_ok W regs xmm mem zf : regs RSP mod 8 = 0 -> w_regs W 0 RAX = 0 ->
-  stub_guarantee W regs xmm mem zf None spec_plt_resolve stub_plt_hooker.
+Theorem plt_hooker_resolve_ok W regs xmm up mem zf : regs RSP mod 8 = 0 -> w_regs W 0 RAX = 0 ->
+  stub_guarantee W regs xmm up mem zf None spec_plt_resolve stub_plt_hooker.
 Proof.
-  intros ? Hz. apply (both_alignments W regs xmm mem zf None (cond_plt true));
+  intros ? Hz. apply (both_alignments W regs xmm up mem zf None (cond_plt true));
     [vm_compute; reflexivity | assumption | intros ? [=] | ].
   intros v k b [= <- <- <-]. cbn. lia.
 Qed.
 
-Theorem plt_hooker_direct_ok W regs xmm mem zf : regs RSP mod 8 = 0 -> w_regs W 0 RAX <> 0 ->
-  stub_guarantee W regs xmm mem zf None spec_plt_direct stub_plt_hooker.
+Theorem plt_hooker_direct_ok W regs xmm up mem zf : regs RSP mod 8 = 0 -> w_regs W 0 RAX <> 0 ->
+  stub_guarantee W regs xmm up mem zf None spec_plt_direct stub_plt_hooker.
 Proof.
-  intros ? Hz. apply (both_alignments W regs xmm mem zf None (cond_plt false));
+  intros ? Hz. apply (both_alignments W regs xmm up mem zf None (cond_plt false));
     [vm_compute; reflexivity | assumption | intros ? [=] | ].
   intros v k b [= <- <- <-]. cbn. lia.
 Qed.
@@ -101,18 +101,18 @@ Proof. vm_compute. reflexivity. Qed.
    run really ends at the expected place *)
 Definition nv_world : world :=
   {| w_regs := fun n r => 1000 + Z.of_nat n; w_mem := fun n a => 7; w_zf := fun _ => true;
-     w_glob := fun _ _ => 555; w_xmm := fun n i => (1, 2); w_ctx := fun _ _ => 9; w_level := 2 |}.
+     w_glob := fun _ _ => 555; w_xmm := fun n i => (1, 2); w_up := fun _ _ _ => 3; w_ctx := fun _ _ => 9; w_level := 2 |}.
 Definition nv_regs (r : reg) : Z :=
   match r with RSP => 4096 + 8 | RBP => 4096 + 64 | RAX => 1 | RBX => 2 | RCX => 3 | RDX => 4 | RSI => 5 | RDI => 6
              | R8 => 8 | R9 => 9 | R10 => 10 | R11 => 11 | R12 => 12 | R13 => 13 | R14 => 14 | R15 => 15 end.
 Definition nv_xmm (x : nat) : Z * Z := (Z.of_nat x * 2, Z.of_nat x * 2 + 1).
 Definition nv_mem (a : Z) : Z := a * 3.
 Example nv_fentry :
-  let c := cexec nv_world stub___fentry__ (cstart nv_regs nv_xmm nv_mem false) in
+  let c := cexec nv_world stub___fentry__ (cstart nv_regs nv_xmm (fun x i => Z.of_nat (x * 10 + i)) nv_mem false) in
   cend c = Some (nv_mem (4096 + 8)) /\ cr c RAX = 1 /\ cr c R11 = 11 /\ cr c RSP = 4096 + 16 /\
   cm c (4096 + 16) = 7 /\ cfault c = false.
 Proof. vm_compute. repeat split; reflexivity. Qed.
 Example nv_mcount_return :
-  let c := cexec nv_world stub_mcount_return (cstart nv_regs nv_xmm nv_mem false) in
+  let c := cexec nv_world stub_mcount_return (cstart nv_regs nv_xmm (fun x i => Z.of_nat (x * 10 + i)) nv_mem false) in
   cend c = Some 1000 /\ cr c RAX = 1 /\ cr c RDX = 4 /\ cx c 0%nat = (0, 1) /\ cr c RSP = 4096 + 8 /\ cfault c = false.
 Proof. vm_compute. repeat split; reflexivity. Qed.
